@@ -3,6 +3,10 @@
    (effective) configuration, one action per mutator of routers_manager / cluster_manager / xDS endpoint update /
    listener adapter; invariants Coherent (live == rebuilt from stored), LastUpdateWins (incl. the attributes
    weight/metadata of a host address named again), RemovedGone, EndpointsUnion, ErrorsChangeNothing, FrameCondition; eight defect switches that TLC must reject.
+   The storage mode of the dump is part of the enumerated space (cMode / rMode: inline, or one file per cluster in
+   the clusters_configs directory / per virtual host in a router_configs directory, with the stale-file sweep;
+   names with a path separator and names that are prefixes of others); cDir / rDir model the directories and
+   defect switch SweepUsesRawName must be rejected.
    B1: every operation history enumerated by TLC is replayed into the real managers; after every operation the
        effective configuration is dumped (transferConfig), parsed again and fresh objects are built from it; live
        and fresh answers (MatchRoute on probe requests, host sets, ChooseHost support, listener variant) are
@@ -16,7 +20,7 @@ import vlib
 
 LEVEL = "model_checking"
 FAM = "config"
-DEFECT_CFGS = ["ConfigStore_defect%d.cfg" % i for i in range(1, 9)]
+DEFECT_CFGS = ["ConfigStore_defect%d.cfg" % i for i in range(1, 11)]
 SWAP_DEFECT_CFGS = ["ConfigSwap_defect1.cfg", "ConfigSwap_defect2.cfg"]
 API_OPS = {"routers", "addroute", "rmroutes", "clusterhosts", "listener"}   # operations the admin debug API offers
 
@@ -51,12 +55,16 @@ def run(ctx):
     rng = random.Random(ctx.seed)
     # (cfg, cap on the number of histories replayed; None = all)
     if q:
-        plan = [("ConfigStore_r.cfg", 6000), ("ConfigStore_c.cfg", 7000), ("ConfigStore_ca.cfg", 5000), ("ConfigStore_cc.cfg", 3500),
-                ("ConfigStore_mix.cfg", 4500)]
+        plan = [("ConfigStore_r.cfg", 5000), ("ConfigStore_c.cfg", 6000), ("ConfigStore_ca.cfg", 4500), ("ConfigStore_cc.cfg", 3000),
+                ("ConfigStore_mix.cfg", 4000),
+                # storage of the dump: clusters_configs / router_configs directories, names with '/' and prefixes
+                ("ConfigStore_cs.cfg", 4000), ("ConfigStore_rs.cfg", None), ("ConfigStore_ms.cfg", 2500)]
         api_cap, rounds, lookers = 1500, 300, 6
     else:
         plan = [("ConfigStore_r.cfg", None), ("ConfigStore_c.cfg", None), ("ConfigStore_ca.cfg", None), ("ConfigStore_cc.cfg", None),
                 ("ConfigStore_mix.cfg", None), ("ConfigStore_ca4.cfg", 40000),
+                ("ConfigStore_cs.cfg", None), ("ConfigStore_rs.cfg", None), ("ConfigStore_ms.cfg", None),
+                ("ConfigStore_cs4.cfg", 30000), ("ConfigStore_rs4.cfg", None),
                 ("ConfigStore_r4.cfg", None), ("ConfigStore_r5.cfg", 30000), ("ConfigStore_c4.cfg", 40000),
                 ("ConfigStore_cc4.cfg", 30000), ("ConfigStore_mix5.cfg", 40000)]
         api_cap, rounds, lookers = 20000, 3000, 8
@@ -129,9 +137,11 @@ def run(ctx):
         # position -> (start of its history / scenario, last operation)
         start = 0; lastop = None; scn = None
         ctxt = {}
+        store = {}          # start line of a history -> (cluster storage mode, router storage mode)
         for i, e in enumerate(evs, 1):
             if e["ev"] == "new":
                 start = i; lastop = None; scn = e.get("scn")
+                store[i] = (e.get("cm", "inline"), e.get("rm", "inline"))
             elif e["ev"] == "op":
                 lastop = e["kind"]
             elif e["ev"] == "ubegin":
@@ -139,11 +149,22 @@ def run(ctx):
             ctxt[i] = (start, lastop, scn)
         reported = set()    # one report per history: its first divergence (later ones are consequences)
 
-        def fail(line, what):
+        def dump_side(what):
+            return what.endswith(("-dump-differs-from-spec", "-live-differs-from-dump", "-after-restart-differs")) or "attributes-dump" in what
+
+        def fail(line, what, kinds=()):
             s, lo, sc = ctxt.get(line, (0, None, None))
+            cm, rm = store.get(s, ("inline", "inline"))
+            fam = "clusters" if what.startswith(("cluster-", "host-")) else "routers" if what.startswith("router-") else None
+            mode = cm if fam == "clusters" else rm if fam == "routers" else "inline"
             if kind == "swap":
                 sig = "C12:swap:%s:%s" % (sc, what)
                 hist = evs[max(s - 1, line - 12):line]
+            elif mode == "dir" and dump_side(what) and all(dump_side(k) for k in kinds):
+                # the live objects are right, only what the directory-mode dump gives back is wrong: the failing class
+                # is the storage of that family (whatever operation triggered the dump), not the operation
+                sig = "C12:store:%s-dir:%s" % (fam, what)
+                hist = evs[s - 1:line]
             else:
                 sig = "C12:%s:%s:%s" % (kind if (kind != "api" or lo in API_OPS) else "hist", lo, what)
                 hist = evs[s - 1:line]
@@ -155,7 +176,7 @@ def run(ctx):
                 continue
             reported.add(s)
             for k in sorted(mm[line]):
-                fail(line, k)
+                fail(line, k, mm[line])
         if v["matched"] is not None and v["matched"] < len(evs):
             fail(v["matched"] + 1, "trace-rejected:" + evs[v["matched"]]["ev"])
 
@@ -165,13 +186,15 @@ def run(ctx):
     ctx.cov["exhaustive"] = not sampled
     ctx.cov["rule"] = ("every operation history of length MaxOps that TLC enumerates from ConfigStore.Next (13 operation kinds over "
                        "2 routers / 5 router configurations incl. invalid and empty ones, 2 clusters x 2 lb types x 4 host sets x 2 host attribute classes (weight+metadata), "
-                       "5 locality lists, 1 listener x 2 variants) is replayed into the real router manager, cluster manager, xDS "
+                       "5 locality lists, 1 listener x 2 variants; dump stored inline or in clusters_configs / router_configs directories) is replayed into the real router manager, cluster manager, xDS "
                        "converter and listener adapter; after EVERY operation the dumped configuration is re-parsed and fresh objects "
                        "are built from it, at the end the managers are re-created from the dump; a sample is replayed through the "
                        "admin debug API handlers; distinct = histories replayed (quick: VERIF_SEED-chosen subset of each family)")
     ctx.assumptions += ["probe requests: Host in {a.com, zz.com} x path in {/x, /y}; routes are prefix routes to a single cluster",
                         "host attribute classes a1 = (weight 1, metadata version v1), a2 = (weight 2, version v2), one class per operation argument",
                         "hosts without health checking (all healthy); listener configured with bind_port=false (no socket), variants differ in use_original_dst",
+                        "directory storage: one fresh directory per history; cluster names {c1, c12, g/c1}, virtual host names {web, web2, web/a}; "
+                        "names whose sanitised file names collide (g/c1 vs g_c1) or exceed 128 bytes are outside the enumerated menu",
                         "router names carry a per-history suffix because the router manager has no removal operation",
                         "fresh objects are built in-process with the constructors pkg/mosn uses at start-up (NewRouters, NewCluster + host handler, "
                         "NewClusterManagerSingleton, ParseListenerConfig + AddListener), not by a second MOSN process",
